@@ -188,7 +188,9 @@ func (c Int) Pow(a, k ConstScalar) Scalar {
 }
 /* -------------------------------------------------------------------------- */
 func (c Int) Sqrt(a ConstScalar) Scalar {
-  return c.Pow(a, ConstFloat64(0.5))
+  x := a.GetFloat64()
+  c.SetFloat64(math.Sqrt(x))
+  return c
 }
 /* -------------------------------------------------------------------------- */
 func (c Int) Sin(a ConstScalar) Scalar {
